@@ -1,6 +1,7 @@
 import Mutagen.Model.Entry
 import Mutagen.Model.Reconcile
 import Mutagen.Model.Executability
+import Mutagen.Model.Phantom
 /-
 Model of the decision part of one synchronization cycle and of the run loop
 around it (core Lean only, executable).
@@ -23,8 +24,8 @@ parameter: the two scans (`Scan`) and the endpoints' answers to `Stage`,
 endpoints is the list of `Event`s the cycle emits, in program order (the two
 `Transition` calls run concurrently in Go; the model lists alpha first).
 Phantom-directory reification (Docker-style ignores only, controller.go:
-1120-1126) happens before this part and is outside the model: the contents
-handed to `cycle` are the reified ones.
+1120-1126) happens before this part: `cycleFromScans` = `reifyStep` (model of
+phantom.go in `Model/Phantom`) followed by `cycle` on the reified contents.
 -/
 namespace Mutagen.Model
 
@@ -260,6 +261,23 @@ def cycle (mode : Mode) (portable : Bool) (eps : Endpoints) (ancestor : Option E
         else if βErr then { base with outcome := .failed .transitionBeta, events := events ++ ev5, ancestor := newAncestor }
         else
           { base with events := events ++ ev5, ancestor := newAncestor, missingFiles := αMissing || βMissing }
+
+/-- controller.go:1120-1126: with Docker-style ignore syntax the scanned
+contents are reified (phantom directories become tracked or untracked) before
+anything else looks at them. -/
+def reifyStep (docker : Bool) (ancestor : Option Entry) (α β : Scan) : Scan × Scan :=
+  if docker then
+    let r := reifyPhantomDirectories ancestor α.content β.content
+    ({ α with content := r.1 }, { β with content := r.2.1 })
+  else (α, β)
+
+/-- controller.go:1108-1441 including the reification step, in the order of the
+code: reify, then propagate executability, then the safety checks,
+reconciliation, staging and transitions (`cycle`). -/
+def cycleFromScans (mode : Mode) (portable docker : Bool) (eps : Endpoints) (ancestor : Option Entry)
+    (α β : Scan) : CycleResult :=
+  let s := reifyStep docker ancestor α β
+  cycle mode portable eps ancestor s.1 s.2
 
 /-- The events that touch an endpoint (everything but saving the archive). -/
 def Event.touchesEndpoint : Event → Bool
